@@ -84,6 +84,117 @@ func tokenFieldStores(p *an.Prog, fn *ssa.Function) []*ssa.Store {
 	return out
 }
 
+// twRole names the part of the trim writer a value reads or addresses: "flag"
+// (the pending-right-trim boolean), "buf" (the held-back bytes) or "w" (the
+// underlying writer). The fields are recognised by their types, so renaming
+// them changes nothing; when a type occurs twice in the struct the declared
+// names trim/buf/w decide.
+func twRole(v ssa.Value) string {
+	if u, ok := v.(*ssa.UnOp); ok && u.Op == token.MUL {
+		v = u.X
+	}
+	fa, ok := v.(*ssa.FieldAddr)
+	if !ok {
+		return ""
+	}
+	ptr, ok := fa.X.Type().Underlying().(*types.Pointer)
+	if !ok || !isNamedIn(ptr.Elem(), "render", "trimWriter") {
+		return ""
+	}
+	st, ok := ptr.Elem().Underlying().(*types.Struct)
+	if !ok {
+		return ""
+	}
+	roleOf := func(t types.Type) string {
+		if b, ok := t.Underlying().(*types.Basic); ok && b.Kind() == types.Bool {
+			return "flag"
+		}
+		if n, ok := t.(*types.Named); ok && n.Obj().Pkg() != nil {
+			switch n.Obj().Pkg().Path() + "." + n.Obj().Name() {
+			case "bytes.Buffer":
+				return "buf"
+			case "io.Writer":
+				return "w"
+			}
+		}
+		return ""
+	}
+	role := roleOf(st.Field(fa.Field).Type())
+	if role == "" {
+		return ""
+	}
+	same := 0
+	for i := 0; i < st.NumFields(); i++ {
+		if roleOf(st.Field(i).Type()) == role {
+			same++
+		}
+	}
+	if same > 1 {
+		switch st.Field(fa.Field).Name() {
+		case "trim":
+			return "flag"
+		case "buf":
+			return "buf"
+		case "w":
+			return "w"
+		}
+		return ""
+	}
+	return role
+}
+
+// twForwardCall: a call that writes the held-back bytes (all of them, or all
+// but trimmed whitespace) to the underlying writer.
+func twForwardCall(c *ssa.CallCommon) bool {
+	n := an.CallName(c)
+	if n == "(*bytes.Buffer).WriteTo" && twRole(c.Args[1]) == "w" {
+		return true
+	}
+	if n == "(io.Writer).Write" && twRole(c.Value) == "w" {
+		for _, o := range an.Origins(c.Args[0], func(v ssa.Value) []ssa.Value {
+			if cc := an.CallOf(v); cc != nil && strings.HasPrefix(an.CallName(cc), "bytes.Trim") {
+				return cc.Args[:1]
+			}
+			return an.StepValue(v)
+		}) {
+			if cc := an.CallOf(o); cc != nil && an.CallName(cc) == "(*bytes.Buffer).Bytes" {
+				return true
+			}
+		}
+	}
+	return false
+}
+
+// twAlwaysForwards: a method of the trim writer every return of which is dominated by a forwarding call.
+func twAlwaysForwards(fn *ssa.Function) bool {
+	if fn == nil || fn.Blocks == nil || fn.Signature.Recv() == nil || !isNamedIn(derefT(fn.Signature.Recv().Type()), "render", "trimWriter") {
+		return false
+	}
+	var fwd []ssa.Instruction
+	an.EachCall(fn, func(ci ssa.CallInstruction) {
+		if twForwardCall(ci.Common()) {
+			fwd = append(fwd, ci.(ssa.Instruction))
+		}
+	})
+	ok := len(fwd) > 0
+	an.EachInstr(fn, func(in ssa.Instruction) {
+		ret, isRet := in.(*ssa.Return)
+		if !isRet {
+			return
+		}
+		dom := false
+		for _, f := range fwd {
+			if instrDominates(f, ret) {
+				dom = true
+			}
+		}
+		if !dom {
+			ok = false
+		}
+	})
+	return ok
+}
+
 func fieldName(fa *ssa.FieldAddr) string {
 	return fa.X.Type().Underlying().(*types.Pointer).Elem().Underlying().(*types.Struct).Field(fa.Field).Name()
 }
@@ -733,7 +844,7 @@ func runT4(p *an.Prog, r *an.Result) {
 				return
 			}
 			fa, ok := st.Addr.(*ssa.FieldAddr)
-			if !ok || !isNamedIn(fa.X.Type().Underlying().(*types.Pointer).Elem(), "render", "trimWriter") || fieldName(fa) != "trim" {
+			if !ok || twRole(fa) != "flag" {
 				return
 			}
 			r.Counts["trim flag writes"]++
@@ -1663,10 +1774,19 @@ func runT9(p *an.Prog, r *an.Result) {
 				c := ci.Common()
 				n := an.CallName(c)
 				forward := false
-				if n == "(*bytes.Buffer).WriteTo" && strings.HasSuffix(describe(p, c.Args[1]), ".w") {
+				// the forwarding step handed in as a function value: every function passed for it forwards the buffer on all its paths
+				if cands := funcValueCandidates(p, fn, c); len(cands) > 0 {
+					forward = true
+					for _, cand := range cands {
+						if !twAlwaysForwards(cand) {
+							forward = false
+						}
+					}
+				}
+				if n == "(*bytes.Buffer).WriteTo" && twRole(c.Args[1]) == "w" {
 					forward = true
 				}
-				if n == "(io.Writer).Write" && strings.HasSuffix(describe(p, c.Value), ".w") {
+				if n == "(io.Writer).Write" && twRole(c.Value) == "w" {
 					// argument derives from tw.buf.Bytes()
 					for _, o := range an.Origins(c.Args[0], func(v ssa.Value) []ssa.Value {
 						if cc := an.CallOf(v); cc != nil && strings.HasPrefix(an.CallName(cc), "bytes.Trim") {
@@ -1756,7 +1876,7 @@ func runT9(p *an.Prog, r *an.Result) {
 					// only under tw.trim
 					under := false
 					for _, g := range an.GuardsAtInstr(x) {
-						if g.True && strings.HasSuffix(describe(p, g.Cond), ".trim") {
+						if g.True && twRole(g.Cond) == "flag" {
 							under = true
 						}
 					}
@@ -1823,12 +1943,12 @@ func runT9(p *an.Prog, r *an.Result) {
 		// when the flag was set, it is cleared on every path to the buffer write
 		for _, in := range instrsOf(w) {
 			ifi, ok := in.(*ssa.If)
-			if !ok || !strings.HasSuffix(describe(p, ifi.Cond), ".trim") {
+			if !ok || twRole(ifi.Cond) != "flag" {
 				continue
 			}
 			clears := map[*ssa.BasicBlock]bool{}
 			for _, x := range instrsOf(w) {
-				if st, ok := x.(*ssa.Store); ok && strings.HasSuffix(describe(p, st.Addr), ".trim") {
+				if st, ok := x.(*ssa.Store); ok && twRole(st.Addr) == "flag" {
 					if c, isC := an.ConstBool(st.Val); isC && !c {
 						clears[st.Block()] = true
 					}
@@ -1866,7 +1986,7 @@ func runT9(p *an.Prog, r *an.Result) {
 		}
 	}
 	r.Floor("trimmers", 2)
-	r.Floor("resets", 2)
+	r.Floor("resets", 1)
 }
 
 // ---------------------------------------------------------------------------
@@ -2694,7 +2814,7 @@ func trimsOnlyUnderFlag(p *an.Prog, h *ssa.Function, call *ssa.Call, data ssa.Va
 			}
 			under := false
 			for _, g := range an.GuardsAtInstr(c) {
-				if g.True && strings.HasSuffix(describe(p, g.Cond), ".trim") {
+				if g.True && twRole(g.Cond) == "flag" {
 					under = true
 				}
 			}
